@@ -368,6 +368,7 @@ func runC08(c *Ctx) {
 	checkNoRelabelAsMissing(c, "listing.no-relabel")
 	checkGenericErrorDiscipline(c, "pkg/core", "pkg/model")
 	checkBatchDistributesAllKeys(c, "listing.batch-distributes-all")
+	checkLabelVersionSplitGuarded(c, "listing.version-split-guarded")
 }
 
 func types_ExprString(e ast.Expr) string { return exprString(e) }
